@@ -2,7 +2,8 @@
    Only statements, each closed by a short proof ending in [exact <lemma>]. *)
 From Coq Require Import List NArith Bool Arith Lia.
 Import ListNotations.
-From JV Require Import Model.LexBase Model.LexTokeniter Spec.LexPlainSpec Proofs.LexInv Proofs.LexPlain.
+From JV Require Import Model.LexBase Model.LexTokeniter Spec.LexPlainSpec Spec.LexTrimSpec Proofs.LexInv Proofs.LexPlain
+  Proofs.LexSkelD Proofs.LexSkelE.
 Open Scope N_scope.
 
 (* A source without any start sequence renders as the one-pass spec: every line break
@@ -82,6 +83,28 @@ Proof.
     repeat split; auto. rewrite <- Ht, texts_app. cbn [texts item_text]. rewrite texts_app. reflexivity.
 Qed.
 Print Assumptions C11_raw_verbatim.
+
+(* Closed forms (default delimiters; texts a, b over all strings without '{' and CR).
+   A comment with an ARBITRARY body (any characters except '#', '+', '-', CR) between two texts
+   contributes nothing: the output is the two texts, each treated by the documented whitespace
+   rules of the comment tag's sides (identity when trim_blocks / lstrip_blocks are off), with the
+   template's final line break removed.  All four settings. *)
+Theorem C11_comment_closed_form : forall t l a cb b,
+  forallb (txt_of 123) a = true -> forallb cbody cb = true -> forallb (txt_of 123) b = true ->
+  render_data (cfg_default t l false [10]) (a ++ [123; 35] ++ cb ++ [35; 125] ++ b)
+  = Some (trim_text t l LStart (RTag true MNone) a ++ trim_text t l (LTag true MNone) REnd (drop_final_nl b)).
+Proof. intros t l a cb b Ha Hc Hb. exact (comment_closed_form t l a cb b Ha Hc Hb). Qed.
+Print Assumptions C11_comment_closed_form.
+
+(* A raw block between two texts, whitespace control off: a ++ "{% raw %}" ++ body ++
+   "{% endraw %}" ++ b renders a ++ body ++ b (minus the template's final line break), for every
+   body without '{' and CR.  (With modifiers / trim / lstrip: C12_trim_refines on a Raw segment.) *)
+Theorem C11_raw_closed_form : forall a body b,
+  forallb (txt_of 123) a = true -> forallb (txt_of 123) body = true -> forallb (txt_of 123) b = true ->
+  render_data (cfg_default false false false [10]) (a ++ open_raw ++ body ++ close_raw ++ b)
+  = Some (a ++ body ++ drop_final_nl b).
+Proof. intros a body b Ha Hy Hb. exact (raw_closed_form a body b Ha Hy Hb). Qed.
+Print Assumptions C11_raw_closed_form.
 
 (* non-vacuity: "a\r\n{ b\r" has no start sequence; rendered with newline_sequence "\r\n" *)
 Example C11_example :
